@@ -15,6 +15,12 @@ from ctx.rng):
            store) while a writer runs a whole synchronize, enters, reads; the writer unpublishes, retires, synchronizes
   overflow aimed: capacity 1-4, writers retire more objects than fit while readers sit in sections; parked at push /
            push_full / inside the synchronize of the overflow path
+  ringfull aimed at the cell hand-back of the reclamation thread (dispose_thread::dispose_buffer: free / pop_front of a
+           ring-buffer cell): free-running hand-off, capacities 1-4, 3-4 clients that together retire more objects than the
+           ring holds (the overflow path of push_buffer calls synchronize() while the others keep retiring), and the STALL
+           mode of the harness' buffer wrapper: after (or before) each real pop_front() the reclamation thread waits until
+           the scheduler has taken N further decisions (bounded by 3 ms of real time), so that a client push can land in
+           the cell that was just handed back
 A watchdog expiry (harness `endcase stuck`, process killed by the driver's generous time limit) is counted as
 INCONCLUSIVE in the evidence and is never a violation; only the property monitors produce violations."""
 import os, json, subprocess, time
@@ -238,12 +244,45 @@ def gen_overflow(rng, cid):
     return mk(cid, "overflow", cfg, segs, threads, tail(rng, n))
 
 
-GEN = {"flat": gen_flat, "directed": gen_directed, "handoff": gen_handoff, "flips": gen_flips, "overflow": gen_overflow}
+def gen_ringfull(rng, cid):
+    """The ring is physically full when the reclamation thread pops: the popped cell is the one the next push goes to."""
+    n = 3 + rng.below(2)
+    cap = rng.choice([1, 2, 2, 3, 4, 4, 4])
+    ring = 2 if cap <= 2 else 4                     # cells of the Vyukov queue (power of two, at least 2)
+    objs = 1; threads = []
+    for t in range(n):
+        ops = [[1]]
+        if t == 0 and rng.chance(1, 3):             # a reader that sits in a section now and then
+            ops += [[3], [9], [4]] * (1 + rng.below(2))
+        k = 2 + rng.below(ring + 2)
+        for _ in range(k):
+            if rng.chance(1, 6):
+                m = 2 + rng.below(2); ops.append([10] + list(range(objs, objs + m))); objs += m
+            else:
+                ops.append([6, objs]); objs += 1
+            if rng.chance(1, 8): ops.append([5])
+            if rng.chance(1, 12): ops.append([11])
+        threads.append(ops)
+    stall = 1 if rng.chance(3, 4) else 2
+    nst = rng.choice([4, 8, 12, 20, 30, 50])
+    cfg = [rng.choice([0, 0, 2, 2, 1]), cap, 1 | stall << 1 | nst << 3]
+    segs = []
+    if rng.chance(1, 2):
+        # one thread runs up to (and into) the overflow, then the others get the processor
+        a = rng.below(n)
+        segs.append((a, rng.choice([P["push_full"], P["dispose_ret"], P["dispose_call"], P["sync_ret"]]), 1, rng.below(3)))
+        sched = [(a + 1 + rng.below(n - 1)) % n for _ in range(40 + rng.below(80))] + tail(rng, n)
+    else:
+        sched = gen_flat_sched(rng, n, rng.below(2)) + tail(rng, n)
+    return mk(cid, "ringfull", cfg, segs, threads, sched)
+
+
+GEN = {"ringfull": gen_ringfull, "flat": gen_flat, "directed": gen_directed, "handoff": gen_handoff, "flips": gen_flips, "overflow": gen_overflow}
 
 
 def gen_cases(ctx, n, prefix="t"):
     rng = ctx.rng
-    mix = ["flat"] * 2 + ["directed"] * 3 + ["handoff"] * 3 + ["flips"] * 2 + ["overflow"] * 2
+    mix = ["flat"] * 2 + ["directed"] * 3 + ["handoff"] * 3 + ["flips"] * 2 + ["overflow"] * 2 + ["ringfull"] * 2
     return [GEN[mix[i % len(mix)]](rng, "%s%d" % (prefix, i)) for i in range(n)]
 
 
@@ -264,7 +303,8 @@ def parse(text):
                 if t[1] == "first": r["mon"]["first"] = " ".join(t[2:])
                 elif t[1] == "points": r["points"] = {t[i]: int(t[i + 1]) for i in range(2, len(t) - 1, 2)}
                 elif t[1] == "disposed_by":
-                    r["stats"] = {"by_thread": int(t[3]), "by_client": int(t[5]), "by_destruct": int(t[7]), "handoffs": int(t[9]), "waits": int(t[11]), "steps": int(t[13]), "segs_done": int(t[15]), "segs": int(t[16])}
+                    r["stats"].update({"by_thread": int(t[3]), "by_client": int(t[5]), "by_destruct": int(t[7]), "handoffs": int(t[9]), "waits": int(t[11]), "steps": int(t[13]), "segs_done": int(t[15]), "segs": int(t[16])})
+                elif t[1] == "stalls": r["stats"].update({"stalls": int(t[2]), "stalls_full": int(t[4]), "stall_timeouts": int(t[6])})
                 elif t[1] == "retired": r["mon"]["retired"] = int(t[2]); r["mon"]["disposed_at_destruct"] = int(t[4])
                 else: r["mon"][t[1]] = int(t[2])
         res[cid] = r
@@ -338,7 +378,10 @@ def report(ctx, c, g, what_prefix, counts):
         if g["mon"].get(key, 0) > 0:
             n += 1
             counts[key] = counts.get(key, 0) + 1
-            mode = "hand-off forced synchronous" if c["cfg"][2] == 0 else "reclamation thread free-running"
+            mode = "hand-off forced synchronous" if c["cfg"][2] & 1 == 0 else "reclamation thread free-running"
+            st = (c["cfg"][2] >> 1) & 3
+            if st:
+                mode += "; reclamation thread stalls %s each pop_front() for %d scheduler decisions (at most 3 ms)" % ("after" if st == 1 else "before", c["cfg"][2] >> 3)
             ctx.violation("%s: %s" % (what_prefix, TEXT[key]),
                           {"harness": "gpt_sched", "monitor": key, "case": c, "flat_case": flat_case(c, g["eff"]) if g["eff"] is not None else None,
                            "buffer": VARIANT.get(c["cfg"][0]), "capacity": c["cfg"][1], "handoff_mode": mode,
@@ -366,7 +409,7 @@ def run_gpt_sched(ctx, ncases=None, wall=None):
         if rep.get("harness") != "gpt_sched":
             return cov
         c = rep.get("flat_case") or rep["case"]
-        reps = 1 if c["cfg"][2] == 0 else 30
+        reps = 1 if c["cfg"][2] & 1 == 0 else 30
         cases = [dict(c, id="%s_r%d" % (c["id"], i)) for i in range(reps)]
         res, inc = run_chunks(ctx, exe, cases, "gptreplay", 600, nproc=1, verbose=True)
         nv = 0
@@ -391,7 +434,7 @@ def run_gpt_sched(ctx, ncases=None, wall=None):
             corpus.append(c.get("flat_case") or c.get("case") or c)
     cases = corpus + gen_cases(ctx, n, prefix="t")
     res, inc = run_chunks(ctx, exe, cases, "gpt", wall)
-    kinds = {}; points = {}; ops = {}; stats = {"handoffs": 0, "waits": 0, "by_thread": 0, "by_client": 0, "by_destruct": 0, "steps": 0, "segs": 0, "segs_done": 0}
+    kinds = {}; points = {}; ops = {}; stats = {"handoffs": 0, "waits": 0, "by_thread": 0, "by_client": 0, "by_destruct": 0, "steps": 0, "segs": 0, "segs_done": 0, "stalls": 0, "stalls_full": 0, "stall_timeouts": 0}
     variants = {}; caps = {}; modes = {"forced_sync": 0, "free_running": 0}
     shapes = set(); nontrivial = set(); two_sync = 0
     nviol = 0
@@ -411,7 +454,9 @@ def run_gpt_sched(ctx, ncases=None, wall=None):
             stats[s] += g["stats"].get(s, 0)
         variants[str(c["cfg"][0])] = variants.get(str(c["cfg"][0]), 0) + 1
         caps[str(c["cfg"][1])] = caps.get(str(c["cfg"][1]), 0) + 1
-        modes["forced_sync" if c["cfg"][2] == 0 else "free_running"] += 1
+        modes["forced_sync" if c["cfg"][2] & 1 == 0 else "free_running"] += 1
+        if (c["cfg"][2] >> 1) & 3:
+            modes["free_running_with_pop_stall"] = modes.get("free_running_with_pop_stall", 0) + 1
         for th in c["threads"]:
             for op in th:
                 ops[OPN.get(op[0], "?")] = ops.get(OPN.get(op[0], "?"), 0) + 1
@@ -432,7 +477,7 @@ def run_gpt_sched(ctx, ncases=None, wall=None):
             nontrivial.add(h)
     # determinism of the forced-synchronous mode: replay a sample with the effective flat schedule, histories must be equal
     det = {"replayed": 0, "same_history": 0}
-    sample = [c for c in cases if c["cfg"][2] == 0 and c["id"] in res and res[c["id"]]["end"] == "finished"][: (120 if thorough else 40)]
+    sample = [c for c in cases if c["cfg"][2] & 1 == 0 and c["id"] in res and res[c["id"]]["end"] == "finished"][: (120 if thorough else 40)]
     if sample and time.time() - t0 < wall:
         fl = [flat_case(c, res[c["id"]]["eff"]) for c in sample]
         r2, _ = run_chunks(ctx, exe, fl, "gptdet", max(30, wall - (time.time() - t0)))
@@ -453,7 +498,8 @@ def run_gpt_sched(ctx, ncases=None, wall=None):
         "restrictions": ["Lock = spin_lock<backoff::empty>, Backoff = empty (template arguments)",
                          "the body of dispose_thread::dispose() is one scheduler step (it holds a std::mutex across an atomic store)",
                          "buffer variants 0/1: a push is one atomic step; variant 2: a hand-off starts only when no push is in flight",
-                         "forced-synchronous hand-off in ~80% of the cases (reclamation runs while the caller holds the baton); the rest free-running"],
+                         "forced-synchronous hand-off in ~70% of the cases (reclamation runs while the caller holds the baton); the rest free-running",
+                         "kind ringfull: free-running hand-off with the pop_front() stall of the buffer wrapper (the reclamation thread waits after / before each real pop_front() for N scheduler decisions, at most 3 ms): these runs depend on real time, a replay repeats the case 30 times"],
     })
     return cov
 
